@@ -2,6 +2,7 @@
 from __future__ import annotations
 
 from .. import memrun, rabbitrun, runmodel
+from ..common import Failure
 from ..vloop import run_virtual
 
 S = 1_000_000
@@ -12,7 +13,7 @@ def gen_hist(rng, n_ops: int, focus: str = "any") -> dict:
     two_q = rng.random() < 0.25
     if two_q:
         ops.append({"op": "declare", "q": 2})
-    n_c = rng.choice([1, 1, 2, 3])
+    n_c = rng.choice([1, 1, 2, 3]) if focus != "fifo" else 1
     cons = {}
     for c in range(1, n_c + 1):
         cat = 0 if c == 1 or rng.random() < 0.6 else rng.choice([1, 2])
@@ -56,7 +57,7 @@ def gen_hist(rng, n_ops: int, focus: str = "any") -> dict:
             sp = spec_put()
             ops.append({"op": "terminal", "respec": (lambda now, sp=sp: memrun.build_params(sp, now)),
                         "kinds": None if focus != "fifo" else ["ack", "reject", "reject"]})
-        elif r < 0.74 and started:
+        elif r < 0.74 and started and focus != "fifo":
             c = rng.choice(sorted(started))
             if c in paused:
                 ops.append({"op": "unpause", "c": c})
@@ -95,3 +96,302 @@ def run_hists(hists: list) -> list:
 def compare(tag: str, outs: list):
     cases = [(o["term"], o["obs"]) for o in outs]
     return runmodel.run_cases(tag, "Sched AmqpSrv RabbitBroker", "rabbit_case", cases, shard=60)
+
+
+# ---------------- oracles (model-free: the fake server's contents and what consume() returned) ----------------
+def zones(pl: list) -> list:
+    return [p[3] for p in pl]
+
+
+def oracle(hist: dict, r: dict, which: set) -> list:
+    from . import _mem
+    bad = []
+    cons = hist["consumers"]
+    live, due, expiry, info, origin = {}, {}, {}, {}, {}
+    via_dead: set = set()
+    arrival, n_arr = {}, 0
+    normal_consumers = {}
+    started: dict = {}
+    prev = {}
+    for n, e in enumerate(r["trace"]):
+        st = e["state"]
+        places = st["places"]
+        op = e["op"]
+        t = e["t"] + (e.get("d") or 0)          # the state recorded is the one at the END of the op
+        where = {"step": n, "op": {k: v for k, v in e.items() if k in ("op", "t", "c", "id", "delivered", "d", "methods")}}
+        if op == "consumer":
+            started[e["c"]] = cons[e["c"]]
+        elif op == "finish":
+            started.pop(e["c"], None)
+        if op in ("put", "requeue"):
+            i = e["id"]
+            live[i] = 1
+            due[i] = _mem.due_of(e["params"], t)
+            expiry[i] = _mem.expiry_of(e["params"])
+            info[i] = (e["q"], e["topic"], e["prio"])
+            via_dead.discard(i)
+            arrival.pop(i, None)
+            want = "delayed" if (due[i] is not None and due[i] > t) else "normal"
+            if want == "normal":
+                arrival[i] = n_arr
+                n_arr += 1
+            if "C01" in which:
+                z = zones(places.get(i, []))
+                if z != [want] and not (z == ["dead"] and expiry[i] is not None and expiry[i] < t):
+                    bad.append((f"rabbit_{op}_wrong_place", f"message {i} is in {places.get(i)}, expected the {want} queue", where))
+        elif op == "ack":
+            live[e["id"]] = 0
+        elif op == "nack":
+            i = e["id"]
+            if i in via_dead and "C01" not in which:
+                live[i] = len(places.get(i, []))
+            elif i in via_dead:
+                if not places.get(i):
+                    bad.append(("rabbit_nack_from_dead_queue_drops", f"message {i}, taken through the DEAD category and nacked, is in no place: "
+                                "<q>:dead has no dead-letter target", where))
+                    live[i] = 0
+            elif origin.get(i) == "delayed":
+                if "C01" in which and zones(places.get(i, [])) != ["dead"]:
+                    bad.append(("rabbit_nack_from_delayed_queue_promotes", f"message {i}, taken through the DELAYED category and nacked, is in "
+                                f"{places.get(i)}: the dead-letter target of <q>:delayed is <q> itself", where))
+                origin[i] = "delayed"        # wherever it went from there, it did not get there as a normal message
+            elif "C01" in which and zones(places.get(i, [])) != ["dead"]:
+                bad.append(("rabbit_nack_not_dead_lettered", f"after nack message {i} is in {places.get(i)}", where))
+        elif op == "reject":
+            i = e["id"]
+            o = origin.get(i, "normal")
+            z = zones(places.get(i, []))
+            ok = z == [o] or (o == "delayed" and z == ["normal"] and due.get(i) is not None and due[i] <= t) \
+                or (o == "normal" and z == ["dead"] and expiry.get(i) is not None and expiry[i] < t)
+            if "C01" in which and not ok:
+                bad.append(("rabbit_reject_not_to_origin", f"taken from {o}, after reject in {places.get(i)}", where))
+            if z == ["normal"]:
+                arrival[i] = -1 - n
+        elif op == "take" and e["delivered"]:
+            i = e["delivered"]
+            c = e["c"]
+            q, cat, topics, mx = cons[c]
+            origin[i] = ("normal", "delayed", "dead")[cat]
+            if cat == 2:
+                via_dead.add(i)
+            if "C14" in which and i in e.get("held_before", {}):
+                bad.append(("rabbit_delivered_while_held", f"message {i} handed to consumer {c} while consumer {e['held_before'][i]} holds it", where))
+            if cat == 0:
+                if "C05" in which and due.get(i) is not None and t < due[i]:
+                    bad.append(("rabbit_delivered_early", f"message {i} due at {due[i]} handed to a normal consumer at {t} ({(due[i] - t)} us early)", where))
+                if "C12" in which and expiry.get(i) is not None and t > expiry[i]:
+                    bad.append(("rabbit_expired_delivered", f"message {i} expired at {expiry[i]} handed out at {t}", where))
+                if "C11" in which and topics is not None and info[i][1] not in topics:
+                    bad.append(("rabbit_foreign_topic_delivered", f"consumer with topics {topics} received topic {info[i][1]}", where))
+                if "C11" in which and info[i][0] != q:
+                    bad.append(("rabbit_foreign_queue_delivered", f"consumer of queue {q} received a message of queue {info[i][0]}", where))
+        # state predicates after every op
+        if "C01" in which or "C14" in which:
+            for i, want in live.items():
+                k = len(places.get(i, []))
+                if k > want:
+                    bad.append(("rabbit_message_duplicated", f"message {i} is in {places.get(i)}", where))
+                elif k < want and not (op == "nack" and e["id"] == i):
+                    bad.append(("rabbit_message_lost", f"message {i} is in no place", where))
+        if "C05" in which:
+            for i, pl in places.items():
+                if zones(pl) == ["normal"] and due.get(i) is not None and t < due[i] and origin.get(i) != "delayed":
+                    bad.append(("rabbit_waiting_before_due", f"message {i} due at {due[i]} is in the normal queue (or delivered from it) at {t}", where))
+        if "C12" in which:
+            for i, pl in places.items():
+                was = prev.get(i)
+                if zones(pl) == ["dead"] and was and zones(was) != ["dead"] and op not in ("nack",):
+                    if expiry.get(i) is None or t <= expiry[i]:
+                        bad.append(("rabbit_live_message_dead_lettered", f"message {i} (expiry {expiry.get(i)}) went to the dead-letter queue during {op} at {t}", where))
+        prev = places
+    return bad
+
+
+def fifo_oracle(hist: dict, r: dict) -> list:
+    """C15 for histories of the `fifo` focus (one priority): a consumer's takes, restricted to messages that were never
+    returned, follow the order of their (immediate) enqueues."""
+    bad = []
+    order: dict = {}
+    returned: set = set()
+    n_put = 0
+    last: dict = {}
+    for n, e in enumerate(r["trace"]):
+        if e["op"] == "put":
+            order[e["id"]] = n_put
+            n_put += 1
+        elif e["op"] in ("reject", "requeue", "finish", "pause"):
+            # rejects, and everything a finish or a paused consumer sends back, lose their place legitimately
+            returned |= {e["id"]} if "id" in e else set(order)
+        elif e["op"] == "take" and e["delivered"]:
+            i, c = e["delivered"], e["c"]
+            if i in returned or i not in order:
+                continue
+            if c in last and order[i] < last[c]:
+                bad.append(("rabbit_overtaken", f"consumer {c} received message {i} (enqueue #{order[i]}) after a message enqueued later (#{last[c]})",
+                            {"step": n}))
+            last[c] = max(last.get(c, -1), order[i])
+    return bad
+
+
+# ---------------- recorded findings: deterministic scenarios replayed on the real client on every run ----------------
+def _build(spec):
+    return lambda now, spec=spec: memrun.build_params(spec, now)
+
+
+def finding_scenarios() -> dict:
+    return {
+        "rabbit_delayed_head_of_line": {"ops": [
+            {"op": "declare", "q": 1}, {"op": "consumer", "c": 1, "q": 1, "cat": 0, "topics": None, "max": None},
+            {"op": "put", "id": 1, "topic": 1, "q": 1, "prio": 5, "build": _build({"next": 5 * S})},
+            {"op": "put", "id": 2, "topic": 1, "q": 1, "prio": 5, "build": _build({"next": 1 * S})},
+            {"op": "tick", "d": 2 * S}, {"op": "take", "c": 1}, {"op": "tick", "d": 3 * S}, {"op": "take", "c": 1}, {"op": "take", "c": 1}],
+            "consumers": {1: (1, 0, None, None)}},
+        "rabbit_foreign_head_of_line": {"ops": [
+            {"op": "declare", "q": 1}, {"op": "consumer", "c": 1, "q": 1, "cat": 0, "topics": [1], "max": 1},
+            {"op": "put", "id": 1, "topic": 2, "q": 1, "prio": 5, "build": _build({})},
+            {"op": "put", "id": 2, "topic": 1, "q": 1, "prio": 5, "build": _build({})},
+            {"op": "tick", "d": 3 * S}, {"op": "take", "c": 1}],
+            "consumers": {1: (1, 0, [1], 1)}},
+        "rabbit_nack_from_dead_queue_drops": {"ops": [
+            {"op": "declare", "q": 1}, {"op": "consumer", "c": 1, "q": 1, "cat": 0, "topics": None, "max": None},
+            {"op": "consumer", "c": 2, "q": 1, "cat": 2, "topics": None, "max": None},
+            {"op": "put", "id": 1, "topic": 1, "q": 1, "prio": 5, "build": _build({})},
+            {"op": "take", "c": 1}, {"op": "nack", "id": 1, "q": 1}, {"op": "take", "c": 2}, {"op": "nack", "id": 1, "q": 1}],
+            "consumers": {1: (1, 0, None, None), 2: (1, 2, None, None)}},
+    }
+
+
+def check_findings(res, which_props: set) -> None:
+    """Each recorded finding is reproduced on the real client (and compared with the model like any other history)."""
+    sc = finding_scenarios()
+    hists = [dict(h, rng=None) for h in sc.values()]
+    outs = run_hists(hists)
+    for (kind, h), r in zip(sc.items(), outs):
+        tr = r["trace"]
+        if kind == "rabbit_delayed_head_of_line" and "C05" in which_props:
+            takes = [e["delivered"] for e in tr if e["op"] == "take"]
+            if takes[0] == 0 and 2 in tr[5]["state"]["places"] and tr[5]["state"]["places"][2][0][0] == "delayed":
+                res.failures.append(Failure(kind, "message 2, due 1 s after its enqueue, is still in the delayed queue 2 s after it, behind message 1 "
+                                            "(due after 5 s), with a free consumer listening: per-message TTLs run out at the head of the queue only; "
+                                            f"takes at 2 s / 5 s / 5 s returned {takes}", {"rabbit_scenario": kind}, None))
+        if kind == "rabbit_foreign_head_of_line" and "C11" in which_props:
+            st = tr[-1]["state"]
+            if tr[-1]["delivered"] == 0 and [p[0] for p in st["places"].get(2, [])] == ["ready"]:
+                n_del = sum(1 for x in r["world"].srv.log if x[0] == "deliver" and x[4] == "m1")
+                res.failures.append(Failure(kind, "consumer with topics [t1] and prefetch 1: the foreign message at the head was delivered, "
+                                            f"rejected after 0.1 s and delivered again {n_del} times in 3 s; message 2 (topic t1) behind it is still waiting",
+                                            {"rabbit_scenario": kind}, None))
+        if kind == "rabbit_nack_from_dead_queue_drops" and "C01" in which_props:
+            if not tr[-1]["state"]["places"].get(1):
+                res.failures.append(Failure(kind, "message 1, dead-lettered, taken through the DEAD category and nacked again, is in no place: "
+                                            "<q>:dead has no dead-letter target, basic.nack(requeue=False) discards it", {"rabbit_scenario": kind}, None))
+    if "C01" in which_props:
+        gap = requeue_cut()
+        if gap is not None:
+            res.failures.append(Failure("rabbit_requeue_not_atomic", f"requeue() cancelled after {gap} loop iterations: basic.ack has been applied, "
+                                        "basic.publish has not - the message is in no queue and unacknowledged by nobody (requeue = ack, then enqueue)",
+                                        {"rabbit_scenario": "requeue_cut", "cut_after_iterations": gap}, None))
+    return outs
+
+
+def requeue_cut():
+    """requeue() of a held message, cancelled after k loop iterations, for every k up to its completion: is there a k at
+    which the message is nowhere?"""
+    import asyncio
+    from ..fakeamqp import ISSUER
+    from ..world import key
+    found = []
+
+    async def main(loop):
+        for k in range(0, 14):
+            w = rabbitrun.RabbitWorld()
+            tok = ISSUER.set(("api",))
+            try:
+                await w.mb.queue_declare("q1")
+                cons = w.mb.get_consumer("q1", None, None)
+                await cons.start()
+                kk = key("m1", "t1", "q1", 5)
+                p = memrun.build_params({}, rabbitrun.CLOCK.now_us())
+                await w.mb.enqueue(kk, "p1", p)
+                await w.settle()
+                got = await cons.consume()
+                t = asyncio.ensure_future(w.mb.requeue(got[0], "p1r1", p))
+                for _ in range(k):
+                    await asyncio.sleep(0)
+                done_before_cut = t.done()
+                t.cancel()
+                try:
+                    await t
+                except asyncio.CancelledError:
+                    pass
+                await w.settle()
+            finally:
+                ISSUER.reset(tok)
+            if not done_before_cut and not rabbitrun.w_state(w)["places"].get(1):
+                found.append(k)
+    run_virtual(main)
+    return found[0] if found else None
+
+
+def run_seq(ctx, res, tag: str, which: set, focus: str, n_quick: int, n_thorough: int, rng, fifo: bool = False) -> None:
+    hists = [gen_hist(rng, rng.randint(8, 45), focus) for _ in range(ctx.scale(n_quick, n_thorough))]
+    outs, ran = [], []
+    for h in hists:
+        async def main(loop, h=h):
+            loop.set_exception_handler(lambda l, c: None)
+            return await rabbitrun.run_history(h, loop)
+        try:
+            out, _ = run_virtual(main, max_iterations=600_000)
+        except Exception as ex:  # noqa: BLE001
+            kind = "rabbit_call_never_returns" if type(ex).__name__ == "VirtualDeadlock" else "rabbit_client_error"
+            res.failures.append(Failure(kind, f"{type(ex).__name__}: {ex}"[:300], {"rabbit_history": jsonable(h)}, None))
+            res.count("rabbit_histories_that_failed_to_run")
+            continue
+        outs.append(out)
+        ran.append(h)
+    outs += check_findings(res, which)
+    ran += [dict(h, rng=None) for h in finding_scenarios().values()]
+    cases = []
+    for h, r in zip(ran, outs):
+        tr = r["trace"]
+        took = sum(1 for e in tr if e["op"] == "take" and e["delivered"])
+        term = sum(1 for e in tr if e["op"] in ("ack", "nack", "reject", "requeue"))
+        res.add_case("rabbit:" + r["term"], took >= 1 and term >= 1)
+        res.count("rabbit_histories")
+        log = r["world"].srv.log
+        res.count("rabbit_methods", sum(1 for x in log if x[0] == "method"))
+        res.count("rabbit_deliveries", sum(1 for x in log if x[0] == "deliver"))
+        res.count("rabbit_expiries", sum(1 for x in log if x[0] == "expire"))
+        res.count("rabbit_callback_rejects", sum(1 for x in log if x[0] == "method" and x[3] == "reject" and x[2] and x[2][0] == "callback"))
+        res.count("rabbit_callback_nacks", sum(1 for x in log if x[0] == "method" and x[3] == "nack" and x[2] and x[2][0] == "callback"))
+        res.count("rabbit_buffer_nacks", sum(1 for e in tr if e["op"] == "take" and any(m[1] == "nack" for m in e["methods"])))
+        # a head expiry and the wake-up of a sleeping reject at the very same microsecond: which of the two timers fires first
+        # is decided by float noise in the loop's deadlines (the model says: the server first) - such a history is not
+        # compared with the model (the model-free oracles still apply)
+        exp_at = {x[1] for x in log if x[0] == "expire"}
+        rej_at = {x[1] for x in log if x[0] == "method" and x[3] == "reject" and x[2] and x[2][0] == "callback"}
+        if exp_at & rej_at:
+            res.count("rabbit_histories_with_simultaneous_timers_not_compared")
+        else:
+            cases.append((r["term"], r["obs"]))
+        seen = set()
+        fs = oracle(h, r, which) + (fifo_oracle(h, r) if fifo else [])
+        for kind, what, where in fs:
+            if kind not in seen:
+                seen.add(kind)
+                res.failures.append(Failure(kind, what, {"rabbit_history": jsonable(h), "where": where}, None))
+    bad, mo = runmodel.run_cases(tag, "Sched AmqpSrv RabbitBroker", "rabbit_case", cases, shard=50)
+    for i in bad:
+        res.mismatches.append({"relation": "rabbit_obs", "coq": cases[i][0][:4000], "impl_obs": cases[i][1][:300], "model_obs": (mo.get(i) or [])[:300]})
+    res.model_cases += len(cases)
+    res.traces_validated += len(cases) - len(bad)
+    res.relations.append("rabbit_obs: per call of a sequential history on the RabbitMQ client over the fake server - every AMQP method "
+                         "with its arguments and issuer (API call / delivery callback), what consume() returned, every queue's content, "
+                         "the unacknowledged deliveries, the consumers' buffers and the delivery-tag map")
+
+
+def jsonable(h: dict) -> dict:
+    ops = []
+    for o in h["ops"]:
+        ops.append({k: v for k, v in o.items() if not callable(v)})
+    return {"ops": ops, "consumers": {str(k): v for k, v in h.get("consumers", {}).items()}}
